@@ -60,6 +60,8 @@ func lang(b byte) string {
 	return "english"
 }
 
+var kept fw.Keeper
+
 var current = ""
 
 // setLang switches the process-wide word list (the property does not cover concurrent switching).
@@ -125,8 +127,16 @@ func judge(class string, key []byte, o *fw.Obs) {
 		entCopy := append([]byte(nil), ent...)
 		var m bip39.Mnemonic
 		var err error
-		if !o.Try("EntropyToMnemonic", func() { m, err = bip39.EntropyToMnemonic(ent) }) {
+		entBuf := append([]byte(nil), ent...)
+		if !o.Try("EntropyToMnemonic", func() { m, err = bip39.EntropyToMnemonic(entBuf) }) {
 			return
+		}
+		if !bytes.Equal(entBuf, entCopy) {
+			o.Fail("mutation", "entropy modified by the call")
+			return
+		}
+		for i := range entBuf { // the caller wipes its buffer
+			entBuf[i] = 0
 		}
 		if !bip39m.ValidEntropyLen(len(ent)) {
 			o.Nontrivial()
@@ -170,9 +180,15 @@ func judge(class string, key []byte, o *fw.Obs) {
 		want, verdict := list.Decode(words)
 		var got []byte
 		var err error
-		if !o.Try("MnemonicToEntropy", func() { got, err = bip39.MnemonicToEntropy(bip39.Mnemonic(words)) }) {
+		wordBuf := append([]string(nil), words...)
+		if !o.Try("MnemonicToEntropy", func() { got, err = bip39.MnemonicToEntropy(bip39.Mnemonic(wordBuf)) }) {
 			return
 		}
+		for i := range wordBuf { // the caller reuses its slice
+			wordBuf[i] = "abandon"
+		}
+		kept.Keep("entropy returned by MnemonicToEntropy", got)
+		defer kept.Check(o)
 		mok, iok := verdict == bip39m.OK, err == nil
 		o.Count(fmt.Sprintf("decode model=%s impl=%s", ar(mok), ar(iok)))
 		if !mok {
